@@ -312,15 +312,20 @@ class Body:
                     proj.append(x)
             return "_%d%s" % (p.local, "".join(proj))
 
-        owns = {re.sub(r"(::\{closure#\d+\})+$", "", p_).split("::")[-1] for p_ in (self.path, getattr(self, "_orig_path", self.path))}
-        owns = sorted(o for o in owns if re.match(r"^\w+$", o))
-        own_re = re.compile(r"\b(%s)\b" % "|".join(re.escape(o) for o in owns)) if owns else None
+        bases = sorted({re.sub(r"(::\{closure#\d+\})+$", "", p_) for p_ in (self.path, getattr(self, "_orig_path", self.path))}, key=len, reverse=True)
+        owns = sorted({b_.split("::")[-1] for b_ in bases if re.match(r"^\w+$", b_.split("::")[-1])})
+        # only where a string refers to THIS function: its full path (a recursive call, its closures' paths) and its name in the
+        # compiler's `{async fn body of ..name()}` / `name::{closure#k}` type strings - not another function that shares the name
+        full_re = re.compile("|".join(re.escape(b_) for b_ in bases)) if bases else None
+        own_re = re.compile(r"\b(%s)(?=\(\)|::\{closure#|::<[^>]*>::promoted|::promoted)" % "|".join(re.escape(o) for o in owns)) if owns else None
 
         def ty(t):
             if not isinstance(t, str):
                 return t
             t = Body._SPAN_RE.sub("@", t)
             # the function's own name (in `{async fn body of ..}`, closure paths, a recursive call) is a name like any other
+            if full_re is not None:
+                t = full_re.sub("$selfpath", t)
             return own_re.sub("$self", t) if own_re is not None else t
 
         def op(o):
